@@ -10,12 +10,15 @@
 (* Deviations switched on by constants (mutation configs, must violate an invariant):   *)
 (*   Strict = TRUE : prefix with cum <  L instead of cum <= L                           *)
 (*   Cross  = TRUE : erosion / labelling with the 2n axis neighbours instead of 3^n-1   *)
+(*   Close  = TRUE : "limit not reachable" only when the total misses the limit by more *)
+(*                   than one unit (a tolerance in the comparison cum[-1] < limit): a   *)
+(*                   grid that falls just short is returned whole without a warning     *)
 EXTENDS HDCOps
 
 CONSTANTS S1, S2, S3,   \* grid shape <<S1, S2, S3>>; S3 = 0: 2-D <<S1, S2>>; S2 = 0: 1-D <<S1>>
           MaxV,         \* cell probabilities 0..MaxV
           Start,        \* "P" or "Mask"
-          Strict, Cross
+          Strict, Cross, Close
 
 VARIABLES pc, P, L, order, cum, R, last, warned, hdc, sets
 vars == <<pc, P, L, order, cum, R, last, warned, hdc, sets>>
@@ -51,10 +54,11 @@ Accumulate ==
     /\ pc' = "summed"
     /\ UNCHANGED <<P, L, order, R, last, warned, hdc, sets>>
 
+Short == IF Close THEN cum[N] + 1 < L ELSE cum[N] < L
 (* cum_sum[-1] < limit: RuntimeWarning -> HDR = ones, prob_m = 0 *)
 Warn ==
     /\ pc = "summed"
-    /\ cum[N] < L
+    /\ Short
     /\ warned' = TRUE /\ R' = All /\ last' = 0
     /\ pc' = "selected"
     /\ UNCHANGED <<P, L, order, cum, hdc, sets>>
@@ -64,7 +68,7 @@ Warn ==
 (* behaviour, nothing is claimed about it).                                             *)
 Select ==
     /\ pc = "summed"
-    /\ cum[N] >= L
+    /\ ~Short
     /\ LET K == {k \in 1..N : IF Strict THEN cum[k] < L ELSE cum[k] <= L} IN
          IF K = {} THEN /\ pc' = "error" /\ UNCHANGED <<R, last>>
          ELSE /\ R' = {order[k] : k \in K}
